@@ -8,6 +8,132 @@ sys.path.insert(0, os.path.dirname(os.path.abspath(__file__)))
 import common  # pylint: disable=g-import-not-at-top
 
 
+STUBS = [
+    """
+from typing import Any, Callable, Generic, List, Optional, Tuple, TypeVar, Union
+T = TypeVar('T')
+x: int
+y: Union[int, str, None]
+def f(a: int, b: str = ..., *args: int, **kw: str) -> List[Tuple[int, ...]]: ...
+def g(a: Callable[[int], str]) -> Optional[T]: ...
+class A(Generic[T]):
+  LIMIT: int
+  def m(self, v: T) -> 'A[T]': ...
+  class Inner:
+    LIMIT: int
+    NAME: str
+    class Deep:
+      FLAG: bool
+class B(A[int]):
+  attr: A.Inner
+  deep: A.Inner.Deep
+""",
+    """
+import enum
+from typing import Literal, overload
+class Color(enum.Enum):
+  RED: int
+  BLUE: int
+class Outer:
+  class Mode(enum.Enum):
+    ON: int
+    OFF: int
+  mode: Literal[Outer.Mode.ON]
+@overload
+def h(x: int) -> int: ...
+@overload
+def h(x: str) -> str: ...
+z: Literal[Color.RED, Color.BLUE]
+""",
+]
+
+
+def roundtrip(repo, tier, violations):
+  """First two sentences of C12 (bounded): encode -> decode gives equal declarations, re-encoding gives
+  the same bytes, and the bytes do not depend on which names were looked up before pickling."""
+  import logging  # pylint: disable=g-import-not-at-top
+  logging.disable(logging.CRITICAL)
+  import corpus  # pylint: disable=g-import-not-at-top
+  from pytype import config, io, load_pytd  # pylint: disable=g-import-not-at-top
+  from pytype.imports import pickle_utils  # pylint: disable=g-import-not-at-top
+  from pytype.pytd import pytd, pytd_utils, serialize_ast, visitors  # pylint: disable=g-import-not-at-top
+  options = config.Options.create(python_version=(3, 12))
+  loader = load_pytd.create_loader(options)
+
+  def viol(**kw):
+    if len(violations) < 10:
+      violations.append(kw)
+
+  def exercise_lookups(ast):
+    """Resolve every name through the unit and through every (nested) class: fills lookup caches."""
+    def walk(cls):
+      for m in list(cls.methods) + list(cls.constants) + list(cls.classes):
+        try:
+          cls.Lookup(m.name)
+        except KeyError:
+          pass
+      for c in cls.classes:
+        walk(c)
+    for item in list(ast.constants) + list(ast.functions) + list(ast.classes) + list(ast.aliases):
+      try:
+        ast.Lookup(item.name)
+      except KeyError:
+        pass
+    for c in ast.classes:
+      walk(c)
+
+  n = 0
+
+  def check(name, make_ast):
+    nonlocal n
+    try:
+      ast0 = make_ast()
+      data0 = pickle_utils.Serialize(ast0, src_path='m.py', metadata=[])
+    except Exception:  # pylint: disable=broad-except
+      return   # cannot be exported at all: outside the domain
+    n += 1
+    try:
+      ast1 = make_ast()
+      exercise_lookups(ast1)
+      data1 = pickle_utils.Serialize(ast1, src_path='m.py', metadata=[])
+      if data1 != data0:
+        viol(kind='history-dependent-bytes', what='%s: %d bytes after name lookups vs %d bytes without' % (name, len(data1), len(data0)), stub=name)
+      dec = pickle_utils.DecodeAst(data1)
+      if pickle_utils.Encode(dec) != data1:
+        viol(kind='not-byte-stable', what='%s: Encode(DecodeAst(data)) differs from data' % name, stub=name)
+      if pickle_utils.Serialize(dec.ast, src_path='m.py', metadata=[]) != data1:
+        viol(kind='not-byte-stable', what='%s: Serialize(DecodeAst(data).ast) differs from data' % name, stub=name)
+      ref = make_ast()
+      ref = serialize_ast.SerializeAst(ref, src_path='m.py', metadata=[]).ast
+      if not pytd_utils.ASTeq(dec.ast, ref):
+        viol(kind='decode-differs', what='%s: decoded declarations differ from the canonically ordered original' % name, stub=name)
+      exercise_lookups(dec.ast)   # the decoded unit must be usable: lookups return nodes
+      for c in dec.ast.classes:
+        for m in list(c.constants) + list(c.classes):
+          got = c.Lookup(m.name)
+          if not isinstance(got, (pytd.Constant, pytd.Class, pytd.Function, pytd.Alias)):
+            viol(kind='decode-differs', what='%s: %s.Lookup(%r) on the decoded unit returns a %s' % (name, c.name, m.name, type(got).__name__), stub=name)
+      pytd_utils.Print(dec.ast)
+    except Exception as e:  # pylint: disable=broad-except
+      viol(kind='roundtrip-crash', what='%s: %s: %s' % (name, type(e).__name__, str(e)[:200]), stub=name)
+
+  for i, src in enumerate(STUBS):
+    check('stub%d' % i, lambda src=src, i=i: serialize_ast.SourceToExportableAst('m%d' % i, src, loader))
+  progs = corpus.load(repo, stride=25 if tier == 'quick' else 4)
+  for name, src in progs:
+    try:
+      ret = io.generate_pyi_ast(src, options, loader)
+    except Exception:  # pylint: disable=broad-except
+      continue
+    check(name, lambda ret=ret: serialize_ast.PrepareForExport('m', ret.ast, loader))
+    if len(violations) >= 10:
+      break
+  return [dict(function='pickle_utils.Serialize / DecodeAst / Encode, serialize_ast.SerializeAst (msgspec round trip)',
+               bound='%d stubs (hand-written stubs with nested classes/enums/literals/overloads + stubs emitted for the upstream test snippets); '
+                     'decoded == canonical original, Encode(Decode(b)) == b, Serialize(Decode(b).ast) == b, bytes independent of earlier name lookups' % n,
+               cases=n)]
+
+
 def main():
   mode, repo = sys.argv[1], sys.argv[2]
   payload = json.loads(sys.stdin.read() or '{}')
@@ -61,9 +187,10 @@ def main():
                                    a=repr(a), b=repr(b)))
         elif len({a, b}) != 1 and len(violations) < 20:
           violations.append(dict(kind='dedup', what='set keeps two equal nodes %r and %r' % (a, b)))
+  rt = roundtrip(repo, tier, violations)
   print(json.dumps(dict(
       violations=violations,
-      bounded=[dict(function='__eq__/__hash__ of all pytd type node classes (incl. msgspec-generated)',
+      bounded=rt + [dict(function='__eq__/__hash__ of all pytd type node classes (incl. msgspec-generated)',
                     bound='%d generated nodes (all Type classes; literals 0/1/False/True/str; unions in both orders; nesting depth<=%d), all ordered pairs' % (
                         len(nodes), 3 if tier == 'thorough' else 2), cases=pairs)],
       spec_validation=[],
